@@ -270,6 +270,21 @@ def run(ck, F):
     for inst, ok, msg, loc, fid in arena.owned_bytes(F):
         ck.check(R7, inst, ok, msg, loc=loc, fn=fid)
 
+    # what a node refers to outlives the call that built it
+    R_cs = ck.rule('C05.no-reference-to-call-storage', 'no reference or pointer member of an object that outlives the factory call (a node in a pool or a '
+                   'table) designates storage of the call itself -- a parameter taken by value, a local or a temporary: after the call '
+                   'returns such a member dangles (it reads a dead stack slot, and two nodes built that way alias each other)', floor=200)
+    import history as _history
+    import wire as _wire
+    from symex import Sym as _Sym2
+    _S2 = _Sym2(F, opaque=contracts.default_opaque(F), max_depth=64)
+    for _f in sorted(_wire.all_factories(F), key=lambda f: f['id']):
+        _r = _history.call_storage_refs(F, _S2, _f)
+        _sid = '::'.join(contracts.fn_qname(_f['id']).split('::')[-2:]) + '/' + str(len(_f['params']))
+        if _r is None:
+            continue
+        ck.check(R_cs, _sid, not _r, f'{_f["id"]}: ' + '; '.join(_r[:3]), loc=_f['loc'], fn=_f['id'])
+
     # immotile: copy/move disabled for node classes (supporting fact)
     movable = [n for n in sorted(node_like) if not F.rec[n]['abstract'] and F.derives_from(n, 'ipr::Node')
                and (F.rec[n]['copy_constructible'] or F.rec[n]['move_constructible'])]
